@@ -20,6 +20,7 @@ RULES = {
     'C18.3': 'the loader builds DatabaseMataData from stored bytes, not from literals',
     'C18.4': 'the result of the upload call is consumed (matched / retried) and a failure is surfaced',
     'C18.5': 'object record layout written = layout read',
+    'C18.6': 'every attempt of a retried upload sends the whole object: the closure handed to the retry helper takes no byte buffer that it shares with the other attempts by &mut',
 }
 
 STRATS = {'s3': 'nundb::storage::s3::', 's3_patition': 'nundb::storage::s3_partition::'}
@@ -145,6 +146,35 @@ def run(ck, m):
               '%s matches the upload result, retries and surfaces a failure' % name if ok4 else
               '%s: upload results consumed %s, retry %s — a failed PUT silently drops the snapshot while the entries were already marked Ok'
               % (name, [u for u, _ in consumed], '%s, surfaced after the retries: %s' % (retried, surfaced)), consumed[0][1] if consumed else '')
+        # (6) attempts are repeatable: the closure handed to the retry helper does not mutate a byte buffer it captured
+        nretry = 0
+        shared = []
+        for b in store:
+            for bi, t in b.calls():
+                if 'retry' not in callee(t).split('::')[-1] or len(t['args']) < 2:
+                    continue
+                for r in origins(b, t['args'][0]):
+                    if r[0] != 'closure' or P.bodies.get(r[1]) is None:
+                        continue
+                    nretry += 1
+                    fam = [x for x in P.user_bodies() if x.id == r[1] or x.id.startswith(r[1] + '::')]
+                    for cb2 in fam:
+                        for cbi, bl in enumerate(cb2.blocks):
+                            if bl.get('cleanup'):
+                                continue
+                            for s_ in bl['s']:
+                                rv = s_.get('r') or {}
+                                if s_['k'] == 'assign' and rv.get('k') == 'ref' and rv.get('mut') \
+                                        and any(x in str(rv['p'].get('t', '')) for x in ('BytesMut', 'Vec<u8>', 'std::string::String')) \
+                                        and any(r2[0] == 'capture' for r2 in core.place_origins(cb2, rv['p'])):
+                                    shared.append('%s (%s)' % (rv['p'].get('t'), cb2.loc(cbi)))
+        ok6 = nretry > 0 and not shared
+        ck.ob('C18.6', name, 'attempts-are-repeatable', ok6 or nretry == 0,
+              ('%s: every attempt of the retried upload builds (or borrows read-only) the bytes it sends' % name) if ok6 else
+              ('%s has no retried upload (judged by C18.4)' % name) if nretry == 0 else
+              '%s: the closure handed to the retry helper takes a byte buffer it shares with the other attempts by &mut (%s): what the first, '
+              'failed attempt consumed (split / take / drain) or appended is missing from, or doubled in, the object the successful attempt uploads — '
+              'the retry "succeeds" and the partition is stored empty' % (name, sorted(set(shared))[:3]), '%s:%s' % (root.file, root.line))
         # (5) layout
         wl = []
         for b in store:
